@@ -40,6 +40,7 @@ type HistOpts struct {
 	BridgeBias    int
 	TimeJumps     bool
 	MintInitEarly bool
+	Quiet         bool // scripted blocks only: no random operations mixed into them
 }
 
 func (w *World) pick(n int) int { return w.Rng.Intn(n) }
@@ -592,7 +593,7 @@ func (w *World) block(o HistOpts, d time.Duration, scripted ...func()) bool {
 	}
 	for _, f := range scripted {
 		f()
-		if w.pick(3) == 0 {
+		if !o.Quiet && w.pick(3) == 0 {
 			w.RandomOp(o)
 		}
 	}
